@@ -105,7 +105,7 @@ func (e *env) planBatch(rng *rand.Rand, conn string, seq *int, k, closeAt, killA
 			p.ChunkReq = !p.Proto10 && rng.Intn(3) == 0
 		}
 		switch {
-		case c.Kind == "chunked" && !p.Proto10 && i != closeAt:
+		case c.Kind == "chunked" && !p.Proto10 && (closeAt < 0 || k == 1) && i != closeAt:
 			// the multi-write chunk path: no Content-Length, more than one buffer
 			p.CL = false
 			if p.Resp < chunkedOneBuffer {
